@@ -31,7 +31,7 @@ From DV Require Import Engine.Dispatch Py.Syntax Py.Sem Py.Instr Py.Refine Py.Pr
 Theorem C03_deliveries_are_reference_deliveries :
   forall (D : data) (analyses : list (analysis (Sem.earg (d_val D)))) (modpath : string)
          (H : list string) (p : program) (fuel : nat) (s : state D),
-    pure_truth D -> src_prog p = true -> ok_prog H p = true ->
+    pure_truth D -> unbound_reads_uniform D -> src_prog p = true -> ok_prog H p = true ->
     deliveries D (inst_run D analyses modpath H fuel p s) = deliveries D (ref_run D analyses modpath H fuel p s).
 Proof. exact same_deliveries. Qed.
 Print Assumptions C03_deliveries_are_reference_deliveries.
@@ -39,4 +39,8 @@ Print Assumptions C03_deliveries_are_reference_deliveries.
 Theorem C03_refuted_chain_eager :
   obs_same (run_inst 40 h_chain_eager a_chain_eager false w_chain_eager) (run_ref 40 h_chain_eager a_chain_eager false w_chain_eager) = false.
 Proof. exact w_chain_eager_deviates. Qed.
+Theorem C03_refuted_unbound_local_thunk :
+  obs_same (run_inst 40 h_unbound_local_thunk a_unbound_local_thunk false w_unbound_local_thunk)
+           (run_ref 40 h_unbound_local_thunk a_unbound_local_thunk false w_unbound_local_thunk) = false.
+Proof. exact w_unbound_local_thunk_deviates. Qed.
 Print Assumptions C03_refuted_chain_eager.
